@@ -38,7 +38,7 @@ PROPS = {
                        "is listed; an upload in progress is still listed with correct parts and can be completed, an uncompleted one aborted; a fresh "
                        "PUT / GET / DELETE of the key succeed; at the end the emptied bucket can be deleted. The thorough tier enumerates every point of "
                        "every scenario (fault enumeration at hook granularity)."),
-        "level_note": ("SIGKILL of a process loses no page cache: this is process-crash consistency, as the property states, not power loss. Crash points are "
+        "level_note": ("Scenarios include the deletion of the current version by id (promotion of the previous one). After a kill that left an upload uncompleted every acknowledged part must still be listed and the completion repeatable. SIGKILL of a process loses no page cache: this is process-crash consistency, as the property states, not power loss. Crash points are "
                        "the hook points. Two open findings: the version id listed twice when a versioned overwrite / delete is killed between the archive "
                        "copy and the publication, and the sidecar store's metadata rewritten by path before publication; both are recognised by their "
                        "exact shape (window / previous data with foreign metadata) and the remaining points of the scenario are still explored."),
@@ -66,7 +66,7 @@ PROPS = {
                        "except Date / Last-Modified / Server / request ids, and body (XML compared canonically with LastModified / Initiated / "
                        "CreationDate / error Message blanked, empty elements dropped, upload ids mapped to placeholders); a proxy process that dies is a "
                        "violation. At the end listing, uploads, ACL and policy of both sides must agree."),
-        "level_note": ("Two open findings narrow the oracle: bucket tagging is not implemented by the proxy backend (operations excluded by construction, "
+        "level_note": ("Half of the cases create the bucket with ACLs enabled (PutBucketAcl is then really carried out); open finding C18-acl-does-not-fit-the-reserved-tag ends a case at the diverging PutBucketAcl. Two open findings narrow the oracle: bucket tagging is not implemented by the proxy backend (operations excluded by construction, "
                        "strict replay kept), and the Owner of listed objects is the backend account (difference tolerated only for exactly that element). "
                        "An upload the endpoint refuses before reading the body may race with the proxy's sdk client (reset while writing => 500): such a "
                        "refused upload is repeated up to 4 times on the proxy side and only a persistent 500 is reported. Exploration only; azure is out of scope."),
@@ -87,7 +87,7 @@ PROPS = {
                        "collects the records. After quiescence the multiset of records must equal the expectation: exactly one record per key "
                        "affected by a successful request whose event type passes the filter, none for failed requests, right bucket, byte-exact key, "
                        "event type, size and ETag (for puts)."),
-        "level_note": "quiescence = all expected records arrived and 400 ms of silence, or 7 s (> 2x the sender's own client time-out). Two open findings narrow the oracle: size 0 in copy / multipart notifications, and batch-delete notifications for keys whose deletion failed. Exploration only.",
+        "level_note": "Keys include directory objects (ending in '/'). quiescence = all expected records arrived and 400 ms of silence, or 7 s (> 2x the sender's own client time-out). Two open findings narrow the oracle: size 0 in copy / multipart notifications, and batch-delete notifications for keys whose deletion failed. Exploration only.",
         "rule": ("case = (filter, clients, ops). Non-trivial: >= 2 clients and >= 1 failing request; distinct by the full case."),
         "assumptions": ["webhook delivery on loopback; kafka / nats senders are not exercised (no broker offline)"],
         "jobs": [
@@ -108,7 +108,7 @@ PROPS = {
                        "CompleteMultipartUpload / CreateBucket / a second DeleteBucket under a harness-owned schedule (the C05 machinery: every operation "
                        "parks at each filesystem-step hook on the bucket, a generated list of choices releases them): an upload that was acknowledged must "
                        "be readable afterwards unless no DeleteBucket was acknowledged ... i.e. never both acknowledged with the object gone."),
-        "level_note": "AWS-reserved name prefixes / suffixes (xn--, -s3alias ...) are not part of the rules checked. Exploration only.",
+        "level_note": "The race part can stall an operation after k of its steps (sched.Starve), lets one client write a key twice in a row, has competing creations of a new bucket, and in versioned buckets demands that every acknowledged version survives a refused DeleteBucket. AWS-reserved name prefixes / suffixes (xn--, -s3alias ...) are not part of the rules checked. Exploration only.",
         "rule": ("N: non-trivial = a name of legal length and character set (the remaining rules decide); B: a create on an existing bucket or a paged "
                  "listing; S: a get after a put / delete of the same setting; R: two operations of the race were in flight together. Distinct by full case."),
         "assumptions": ["in-process engine replicates runGateway wiring"],
@@ -131,7 +131,7 @@ PROPS = {
                        "OFF, by a GOVERNANCE bypass of a permission holder (root / admin with the header: outcome not judged), by removal of the "
                        "default rule, or by expiry. After every step, while the model says protected, GET of the version (by id when versioned) "
                        "returns the original bytes; a COMPLIANCE retention is never shortened / downgraded, a GOVERNANCE one only by a permission holder."),
-        "level_note": "removing the bucket default retention rule ends the protection it gave (the gateway keeps no per-object copy of a default retention; recorded as a modelling decision, see DESIGN.md). In-process engine. Exploration only.",
+        "level_note": "Also drawn: buckets without any bucket policy, a protected version that lies below an unprotected current one (protection by version id), batch deletes that carry the protected key among unprotected ones, an empty lock configuration (open finding, excluded). removing the bucket default retention rule ends the protection it gave (the gateway keeps no per-object copy of a default retention; recorded as a modelling decision, see DESIGN.md). In-process engine. Exploration only.",
         "rule": ("case = (versioned, sidecar, protection, bob's bypass permission, ops). Non-trivial: a destructive request was accepted while protection was in "
                  "force (legitimately or not) or a weakening was refused; distinct by the full case."),
         "assumptions": ["retention dates are now + minutes, never near a boundary", "in-process engine replicates runGateway wiring"],
@@ -189,7 +189,7 @@ PROPS = {
                        "and SIGTERM / SIGKILL restarts; bodies from a boundary-size table (0 ... 1 MiB+1, 5 MiB parts), keys built from URL-reserved "
                        "and multi-byte characters, deep nesting and 255-byte segments. After every acknowledged upload each read through any "
                        "process must return exactly the model's bytes, length, ETag (MD5 / multipart ETag), headers, metadata, tags, checksums."),
-        "level_note": "an upload that is refused is 'not acknowledged' and only counted; Content-Encoding of aws-chunked uploads and the ETag of a copied multipart object are not judged. Open finding C01-sidecar-stale-attributes narrows the attribute comparison for overwritten keys in sidecar mode to 'supplied attributes are present'. Exploration only.",
+        "level_note": "Multipart uploads use part numbers that need not start at 1 nor be contiguous; user metadata values may be empty; a CopyObject answered NoSuchKey for a key HEAD finds is a violation. an upload that is refused is 'not acknowledged' and only counted; Content-Encoding of aws-chunked uploads and the ETag of a copied multipart object are not judged. Open finding C01-sidecar-stale-attributes narrows the attribute comparison for overwritten keys in sidecar mode to 'supplied attributes are present'. Exploration only.",
         "rule": ("case = (config, nproc, keys, ops). Non-trivial: the program reads an acknowledged object through a different process than the one that "
                  "acknowledged it, or after a restart, or the key contains URL-reserved characters; distinct by the full case."),
         "assumptions": ["real processes on loopback TCP, unprivileged uid", "time.Now() only for signing dates"],
@@ -246,7 +246,7 @@ PROPS = {
                        "mixed) or double-encoded, signed for an account authorised for bucket A only (or root). Oracle: the byte-level snapshot of the "
                        "whole sandbox except bucket A's own storage is unchanged, the answer contains no canary from outside A, and no outside "
                        "canary has been pulled into A's files. Gateways and the test process run as an unprivileged uid."),
-        "level_note": "escape depth is bounded by the sandbox (11 levels); root naming another bucket by a clean name is authorised for that bucket. Exploration only.",
+        "level_note": "Hostile depths are weighted by what the parameter is joined to (storage root vs bucket), callers include an admin, and a hostile query parameter may be accompanied by a harmless second occurrence before or after it. escape depth is bounded by the sandbox (11 levels); root naming another bucket by a clean name is authorised for that bucket. Exploration only.",
         "rule": ("case = (config, op, key, caller, parameter, hostile string, spelling, engine). Non-trivial: the hostile value, joined lexically to the directory "
                  "the parameter is relative to, designates a location outside bucket A's storage; distinct by the full tuple."),
         "assumptions": ["in-process engine replicates runGateway wiring; TestC04P uses the shipped binary"],
@@ -265,7 +265,7 @@ PROPS = {
                        "26 numeric boundary values and operation x hostile document. After each request: no panic anywhere in the in-process chain / "
                        "the real process is alive, the answer arrives within 30 s and parses as HTTP with an S3 <Error> document (or a plain 4xx of the "
                        "HTTP layer), allocations stay below 256 MiB + 16x the bytes actually sent (no allocation sized by a merely declared number), and ListBuckets by root still answers 200."),
-        "level_note": "bounded time is a 30 s hang detector, not a latency bound; a 5xx with a well-formed error document is accepted (the statement asks for well-formedness, not for a specific status). Exploration only.",
+        "level_note": "Also mutated after signing: X-Amz-Date / Authorization / X-Amz-Content-Sha256 cut at 16 lengths; aws-chunked trailer line out of shape (6 forms); the sweep (run completely in both tiers) empties / drops every leaf of each operation's document and sends every hostile document to the ACL operations on a bucket with ACLs enabled. bounded time is a 30 s hang detector, not a latency bound; a 5xx with a well-formed error document is accepted (the statement asks for well-formedness, not for a specific status). Exploration only.",
         "rule": ("case = (config, op, target, caller, mutations, bad-auth, chunk hack, engine); every case is non-trivial (at least one field is hostile); distinct by the full tuple."),
         "assumptions": ["in-process engine replicates runGateway wiring; TestC20P observes death of the shipped binary directly", "event sender, audit logger and metrics are off"],
         "jobs": [
@@ -303,7 +303,7 @@ PROPS = {
                        "be answered 4xx, leave the snapshot of root+versioning+sidecar+IAM+outside directories unchanged and disclose no canary; "
                        "the undamaged twin shows whether the route does anything for a valid caller. In-process engine (fresh gateway + fixture per "
                        "case) for volume, the shipped binary for the real wiring."),
-        "level_note": "a damaged request that still carries a correct proof according to the harness' signer is discarded and counted, never judged; a presigned URL dated in the future is not treated as a defect (the statement does not list it). Exploration only.",
+        "level_note": "Defect kinds include a duplicated signed header (second occurrence with another value) and an alteration confined to the data of the last aws-chunked chunk; a second Host / Content-Type / X-Amz-Date is not judged (single-valued in the HTTP layer resp. replaced by the verifier before use). a damaged request that still carries a correct proof according to the harness' signer is discarded and counted, never judged; a presigned URL dated in the future is not treated as a defect (the statement does not list it). Exploration only.",
         "rule": ("case = (config, catalogue op, bucket, key, slash, caller, header/presign, body kind, defect, arg, short). Non-trivial: the undamaged twin "
                  "succeeded (in-process) / the catalogue marks the route as mutating (real process); distinct by (op, bucket, key, slash, defect, body, presign, short, engine)."),
         "assumptions": ["in-process engine replicates cmd/versitygw runGateway wiring; the TestC02P share runs the real binary",
@@ -323,7 +323,7 @@ PROPS = {
                        "concurrently; the observed history must be linearizable and users.json must parse and equal the model. (B) through a real "
                        "gateway process: create => first request works (and, as root with --chuid/--chgid, files carry the account's uid/gid); "
                        "secret change => old 403 / new 200; delete => 403; concurrent admin mutations => list-users equals the model."),
-        "level_note": "interleavings are explored at the granularity of the service call boundary (before / after effect); ops blocked on locks inside the code are recognised by a 4 ms quiescence rule which can only lengthen recorded intervals (sound). Staleness across different gateway processes is outside the statement.",
+        "level_note": "Authentication probes of the end-to-end part use the Authorization header or a presigned URL. interleavings are explored at the granularity of the service call boundary (before / after effect); ops blocked on locks inside the code are recognised by a 4 ms quiescence rule which can only lengthen recorded intervals (sound). Staleness across different gateway processes is outside the statement.",
         "rule": ("A: (pre-existing keys, <=7 ops, <=24 schedule choices); non-trivial: a lookup overlaps a mutation of the same key in real time or a created "
                  "account has a non-zero uid/gid. S: non-trivial: >= 2 mutations of one key overlap. B: every program is non-trivial (it contains a change followed by use)."),
         "assumptions": ["porcupine v1.3.0 decides linearizability", "TTL 1 h in layer A so expiry plays no role; layer B uses the gateway's default cache (120 s)"],
